@@ -1,6 +1,7 @@
 package props
 
 import (
+	"sort"
 	stdjson "encoding/json"
 	"fmt"
 	"math/big"
@@ -247,12 +248,22 @@ func enumSame(lit string, it ref.RV) bool {
 	}
 }
 
+// formatTable: strings whose verdict is clear-cut from the format's defining RFC;
+// spellings on which reasonable implementations differ (URN / braced / bare-hex
+// UUIDs, host names without a dot, a space between date and time) are listed with
+// noClaim so that the code paths are still crossed (panics and malformed errors are
+// C02's and C16's business).
 var formatTable = map[string]map[string]verdict{
-	"email":    {"a@b.cc": accept, "john.doe@example.com": accept, "ab": reject, "": reject, "a b": reject},
-	"uri":      {"http://x.y/z": accept, "https://example.com": accept, "ab": reject, "": reject},
-	"uuid":     {"550e8400-e29b-41d4-a716-446655440000": accept, "ab": reject, "550e8400-e29b-41d4-a716-44665544000": reject, "": reject},
-	"date":     {"2021-01-02": accept, "2020-02-29": accept, "2021-02-30": reject, "2021-1-2": reject, "ab": reject, "": reject},
-	"datetime": {"2021-01-02T07:23:12+03:00": accept, "2021-01-02T07:23:12Z": accept, "2021-01-02": reject, "ab": reject, "": reject},
+	"email": {"a@b.cc": accept, "john.doe@example.com": accept, "a+tag@b.cc": accept, "ab": reject, "": reject, "a b": reject,
+		"<a@b.cc>": reject, "Bob <a@b.cc>": reject, " a@b.cc": reject, "a@b.cc ": reject, "a@": reject, "@b.cc": reject, "a@b@c.cc": reject, "a@b": noClaim},
+	"uri": {"http://x.y/z": accept, "https://example.com": accept, "ftp://x.y/z?q=1#f": accept, "ab": reject, "": reject, "http://x y": reject, "mailto:a@b.cc": noClaim, "//x.y": noClaim},
+	"uuid": {"550e8400-e29b-41d4-a716-446655440000": accept, "550E8400-E29B-41D4-A716-446655440000": accept, "ab": reject, "550e8400-e29b-41d4-a716-44665544000": reject, "": reject,
+		"550e8400-e29b-41d4-a716_446655440000": reject, "550e8400-e29b-41d4-a716-44665544000g": reject, "g50e8400-e29b-41d4-a716-446655440000": reject,
+		"550e8400e29b41d4a716446655440g00": reject, "urx:uuid:550e8400-e29b-41d4-a716-446655440000": reject, "{550e8400-e29b-41d4-a716-446655440000x": reject, "x550e8400-e29b-41d4-a716-446655440000}": reject,
+		"urn:uuid:550e8400-e29b-41d4-a716-446655440000": noClaim, "URN:UUID:550e8400-e29b-41d4-a716-446655440000": noClaim, "{550e8400-e29b-41d4-a716-446655440000}": noClaim, "550e8400e29b41d4a716446655440000": noClaim},
+	"date": {"2021-01-02": accept, "2020-02-29": accept, "2021-02-30": reject, "2021-1-2": reject, "ab": reject, "": reject, "2021-13-01": reject, "2021-00-10": reject, "2021-01-02 ": reject, "2021-02-29": reject, "2021/01/02": reject},
+	"datetime": {"2021-01-02T07:23:12+03:00": accept, "2021-01-02T07:23:12Z": accept, "2021-01-02T07:23:12.123Z": accept, "2021-01-02": reject, "ab": reject, "": reject,
+		"2021-01-02T07:23:12": reject, "2021-01-02T25:00:00Z": reject, "2021-01-02T07:23:12+0300": reject, "2021-02-30T07:23:12Z": reject, "2021-01-02 07:23:12Z": noClaim},
 }
 
 func formatVerdict(t, s string) verdict {
@@ -403,8 +414,13 @@ func c01TypedValues(thorough bool, visit func(tv)) {
 				visit(tv{Lit: v, Rules: r, Witness: witnessBelow(b), Family: "max"})
 			}
 			for _, b2 := range nums {
-				if cmp(b, b2) >= 0 {
-					continue
+				wit := midpoint(b, b2)
+				if c := cmp(b, b2); c >= 0 {
+					// an empty or one-point range: only the boundary numbers themselves
+					if b != c01Nums[0] && b2 != c01Nums[0] && b != b2 {
+						continue
+					}
+					wit = b
 				}
 				for _, e1 := range excl {
 					for _, e2 := range excl {
@@ -416,7 +432,7 @@ func c01TypedValues(thorough bool, visit func(tv)) {
 						if e2 != "" {
 							r = append(r, "exclusiveMaximum: "+e2)
 						}
-						visit(tv{Lit: v, Rules: r, Witness: midpoint(b, b2), Family: "min-max"})
+						visit(tv{Lit: v, Rules: r, Witness: wit, Family: "min-max"})
 					}
 				}
 			}
@@ -443,14 +459,20 @@ func c01TypedValues(thorough bool, visit func(tv)) {
 		}
 	}
 	// (d) formats
-	for f, tab := range formatTable {
+	for _, f := range []string{"date", "datetime", "email", "uri", "uuid"} {
+		tab := formatTable[f]
 		wit := ""
-		for s, v := range tab {
-			if v == accept {
+		keys := make([]string, 0, len(tab))
+		for s := range tab {
+			keys = append(keys, s)
+		}
+		sort.Strings(keys)
+		for _, s := range keys {
+			if tab[s] == accept && wit == "" {
 				wit = s
 			}
 		}
-		for s := range tab {
+		for _, s := range keys {
 			lit, _ := stdjson.Marshal(s)
 			w, _ := stdjson.Marshal(wit)
 			visit(tv{Lit: string(lit), Rules: []string{`type: "` + f + `"`}, Witness: string(w), Family: "format-" + f})
